@@ -94,6 +94,15 @@ def one_case(ctx: Ctx, stream: str, i: int) -> None:
                 for _ in range(int(np.prod(ash)))]
         return np.asarray(vals, dtype=np.float32).reshape(ash)
     a1, a2 = angles(), angles()
+    if rng.random() < 0.3:
+        # rotations whose COMBINATION is special: the angles add up (or differ) to a multiple of pi/4 in every element —
+        # R(pi/2) = diag(1,-1,-1,1) and R(pi) = I are where sin or cos of the doubled angle vanishes
+        target = rng.choice([0.0, np.pi / 2, np.pi, -np.pi / 2, 3 * np.pi / 2, 2 * np.pi, np.pi / 4, -np.pi])
+        sign = rng.choice([1.0, -1.0])
+        if rng.random() < 0.5:
+            a1 = np.full_like(a1, rng.choice([np.pi / 4, 0.0, np.pi / 2, 0.3, -np.pi / 4]))
+        a2 = (sign * (target - np.broadcast_to(a1, shape))).astype(np.float32)
+        ctx.count('special-angle-sum')
     comps = [jnp.asarray(np.array([rng.choice([-3, -2, -1, 1, 2, 3, 4, 5]) + 7 * c for _ in range(n)],
                                   dtype=np.float32).reshape(shape)) for c in range(len(kind))]
     x = cls(*comps)
